@@ -131,6 +131,13 @@ class Interp:
             elif isinstance(st, ast.Assign) and len(st.targets) == 1 and \
                     isinstance(st.targets[0], ast.Name):
                 self.env[st.targets[0].id] = self.ev(st.value)
+            elif isinstance(st, ast.Assign) and len(st.targets) == 1 and \
+                    isinstance(st.targets[0], ast.Attribute) and \
+                    norm(st.targets[0].value) == 'self':
+                self.env[norm(st.targets[0])] = self.ev(st.value)
+            elif isinstance(st, ast.Expr) and isinstance(st.value, ast.Call) and \
+                    norm(st.value.func).startswith(('_logger.', 'self.log_', 'logging.')):
+                continue        # logging has no influence on the decision
             elif isinstance(st, ast.Expr) and isinstance(st.value, ast.Constant):
                 continue        # docstring
             elif isinstance(st, ast.Assert):
